@@ -65,6 +65,7 @@ def check(ctx):
                       "left and right are treated alike", 4)
     ctx.rule("R16.5", "every attribute read on an operand exists on every class the dominating guard admits (slots definitely assigned)", 4)
     ctx.rule("R16.6", "structural equality compares left, right and operator only", 1)
+    ctx.rule("R16.8", "cached evaluation: the cache key covers every call argument and the keyword arguments", 2)
     ctx.rule("R16.7", "what the solver touches on a parameter (call, time_dependent, _clear_cache) exists on every Parameter class", 3)
 
     # R16.1 -------------------------------------------------------------------------
@@ -186,6 +187,35 @@ def check(ctx):
                detail={"__call__": has_call, "_clear_cache": has_clear, "time_dependent": has_td}, where=cls.fq,
                construct=f"{cls.name} solver interface", message=f"{cls.name} lacks part of the interface the solver uses",
                consequence="tdgl.solve(..., applied_vector_potential=<this parameter>) raises AttributeError")
+    # R16.8 ------------------------------------------------------------------------
+    fh = P.methods.get("_hash_args")
+    fc = P.methods.get("__call__")
+    if fh is None or fc is None:
+        raise AnalysisError("Parameter._hash_args / __call__ not found")
+    params = [a.arg for a in fh.node.args.args[1:]]
+    rets = [n for n in own_nodes(fh.node) if isinstance(n, ast.Return)]
+    used = {}
+    if len(rets) == 1:
+        # a helper applied to a parameter counts as a use of that parameter
+        for n in ast.walk(rets[0].value):
+            if isinstance(n, ast.Name) and n.id in params:
+                used[n.id] = used.get(n.id, 0) + 1
+        uses_kwargs = "self.kwargs" in norm(rets[0].value)
+    else:
+        uses_kwargs = False
+    missing = [p_ for p_ in params if p_ not in used]
+    ctx.ob("R16.8", "the cache key depends on every call argument (x, y, z, t) and on the keyword arguments", not missing and uses_kwargs
+           and len(rets) == 1, detail={"parameters": params, "used": used, "kwargs": uses_kwargs}, where=fh.fq,
+           construct="_hash_args coverage", loc=loc(fh, fh.node),
+           message=f"the cache key of a cached parameter ignores {missing or 'self.kwargs'}",
+           consequence="a cached (time-dependent) parameter evaluated at different z (or t) returns the value cached for another "
+                       "argument: the composite no longer equals the pointwise arithmetic of its operands")
+    call_args = [norm(a) for n in own_nodes(fc.node) if isinstance(n, ast.Call) and norm(n.func) == "self._hash_args" for a in n.args]
+    ev_args = [[norm(a) for a in n.args] for n in own_nodes(fc.node) if isinstance(n, ast.Call) and norm(n.func) == "self._evaluate"]
+    ok = call_args == ["x", "y", "z", "t"] and ev_args and all(a == ["x", "y", "z", "t"] for a in ev_args)
+    ctx.ob("R16.8", "__call__ hashes and evaluates the same (x, y, z, t)", ok, detail={"hash": call_args, "evaluate": ev_args}, where=fc.fq,
+           construct="__call__ cache protocol", loc=loc(fc, fc.node), message=f"hash args {call_args}, evaluate args {ev_args}",
+           consequence="the value stored under a key was computed for other arguments")
     ctx.assume("operands' own values are opaque; `operator.X` is Python's operator module")
     ctx.decline("numerical value of an evaluated tree (it is operator.X of the operand values by R16.2)")
 
